@@ -8,6 +8,7 @@ QUICK = [
     ("readonly", ["req=0:3115b5090142", "submit=1", "qq=03", "zz=fe,15", "nn=0", "snn=0", "readonly=1"]),
     ("enh-arb", ["enhanced=1", "req=0:3115b5090100", "submit=1", "qq=03", "zz=fe", "nn=0", "snn=0", "win=03,11", "buslost=1", "echofaults=0"]),
     ("enh-err", ["enhanced=1", "enherr=1", "req=0:31feb50900", "submit=1", "qq=03", "zz=fe", "nn=0", "snn=0", "win=03", "buslost=0", "echofaults=0", "longto=0"]),
+    ("readonly-gensyn", ["readonly=1", "gensyn=1", "req=0:31feb50900", "submit=1", "qq=03", "zz=fe", "nn=0", "snn=0"]),
     ("gensyn-werr", ["gensyn=1", "writeerr=1", "req=0:31feb50900", "submit=1", "qq=03", "zz=fe", "nn=0", "snn=0", "win=03", "echofaults=0"]),
     ("lock-auto", ["lock=0", "keyseen=1", "req=0:3115b5090100", "submit=1", "qq=03,71,10", "zz=fe", "nn=0", "snn=0", "win=03", "buslost=1",
                    "echofaults=0"]),
